@@ -266,6 +266,13 @@ def x1_x3(ctx):
         akey = arm.key if arm else 'outside-main-match'
         ordinal = sum(1 for c in sites[:sites.index((chain, stmts, i, call))] if (arm_of_line(pp, c[3].get('l')) or arm) is arm)
         t = sx.strip_ref(text)
+        if sx.is_path(t):
+            # a local bound once to the copy: `let comment = locate.str(&s);`
+            st_loc, _ = resolve_let(chain, stmts, i, t['p'])
+            if st_loc is not None and 'init' in st_loc:
+                ti = sx.strip_ref(st_loc['init'])
+                if ti.get('k') == 'mcall' and ti['m'] == 'str' and sx.is_path(ti['recv']) and len(ti['args']) == 1:
+                    t = ti
         if t.get('k') == 'mcall' and t['m'] == 'str' and sx.is_path(t['recv']) and len(t['args']) == 1:
             # class A: copy of source text
             nA += 1
@@ -396,14 +403,65 @@ def x1_x3(ctx):
                 if rexpr is not None and sx.is_call(rexpr) and rexpr['f']['p'] == 'Range::new' and len(rexpr['args']) == 2:
                     a0, b0 = sq(rexpr['args'][0]), sq(rexpr['args'][1])
                     m_ = a0.endswith('.offset')
-                    okr = m_ and b0 == '(%s+%s.len())' % (a0, tv)
+                    okr = m_ and b0 in ('(%s+%s.len())' % (a0, tv), '(%s.len()+%s)' % (tv, a0))
+                if not (lits_only and okr and sq(pth) == 'path.as_ref()') and (not lits_only or not okr):
+                    if lits_only and rexpr is not None and sx.is_call(rexpr) and not okr and '.len' in sq(rexpr) and tv not in sq(rexpr):
+                        pass
+                    else:
+                        r3.undecided(key + ':separator-form', pp.where(call.get('l')),
+                                     '%s: synthesised text `%s` with origin `%s`: not recognised as a literal separator mapped to the start of the node it replaces' %
+                                     (akey, sx.render(text), sx.render(origin)[:80]))
+                        continue
                 if not (lits_only and okr and sq(pth) == 'path.as_ref()'):
                     r3.fail(key + ':separator-form', pp.where(call.get('l')),
                             '%s: synthesised text `%s` with origin `%s` is not a literal separator mapped to the start of the node it replaces' %
                             (akey, sx.render(text), sx.render(origin)[:80]))
             else:
                 r3.fail(key + ':origin-form', pp.where(call.get('l')), '%s: unmodelled origin expression `%s` (fail closed)' % (akey, sx.render(origin)[:60]))
-    r1.floor('source_copy_emission_sites', nA, 20)
+    # emission helpers: a private function that receives the output (`&mut OUT`), a Locate, the text and the path and pushes the copy
+    for hname, h in sorted(pp.fns.items()):
+        if hname == pp.loop_fn['name']:
+            continue
+        hps = [sx.pat_idents(q['pat'])[0] for q in h['sig']['params'] if q.get('k') == 'typed']
+        hpush = [st_['e'] for st_ in h['body']['stmts'] if st_['k'] == 'expr' and st_['e'].get('k') == 'mcall' and st_['e']['m'] == 'push'
+                 and sx.is_path(st_['e']['recv']) and st_['e']['recv']['p'] in hps and len(st_['e']['args']) == 2]
+        calls_ = [n for n in sx.walk(pp.loop_fn['body']) if sx.is_call(n) and n['f']['p'] == hname and len(n['args']) == len(hps)]
+        if len(hpush) != 1 or not calls_:
+            continue
+        outp = hpush[0]['recv']['p']
+        if not all(sq(sx.strip_ref(c_['args'][hps.index(outp)])) == pp.out_var for c_ in calls_):
+            continue
+        text_, origin_ = hpush[0]['args']
+        t_ = sx.strip_ref(text_)
+        hkey = '%s:helper:%s' % (CRATE, hname)
+        if not (t_.get('k') == 'mcall' and t_['m'] == 'str' and sx.is_path(t_['recv']) and len(t_['args']) == 1 and sx.is_path(sx.strip_ref(t_['args'][0]))):
+            r1.undecided(hkey + ':shape', pp.where(h['l']), '%s pushes `%s`: not a copy `LOCATE.str(&TEXT)`' % (hname, sq(text_)[:40]))
+            continue
+        locp, textp = t_['recv']['p'], sx.strip_ref(t_['args'][0])['p']
+        ok_shape = sx.is_call(origin_, 'Some') and origin_['args'][0].get('k') == 'tuple' and len(origin_['args'][0]['e']) == 2
+        r1.inst(hkey, {'helper': hname, 'text': sq(text_), 'origin': sq(origin_)[:80], 'call_sites': len(calls_)})
+        if not ok_shape:
+            r1.fail(hkey + ':origin-missing', pp.where(hpush[0].get('l')), '%s: text copied from the source is pushed with origin `%s` instead of Some((path, range))' % (hname, sq(origin_)[:60]))
+            continue
+        pth_, rng_ = origin_['args'][0]['e']
+        pathp = sx.strip_ref(pth_['recv'] if pth_.get('k') == 'mcall' and pth_['m'] == 'as_ref' else pth_)
+        rexpr_ = rng_
+        if sx.is_path(rng_):
+            ls_ = [st_ for st_ in h['body']['stmts'] if st_['k'] == 'let' and rng_['p'] in sx.pat_idents(st_['pat']) and 'init' in st_]
+            rexpr_ = ls_[-1]['init'] if ls_ else None
+        if rexpr_ is None or not is_span_of(rexpr_, locp):
+            r1.fail(hkey + ':origin-range', pp.where(hpush[0].get('l')), '%s: emits `%s` but records origin range `%s`; expected Range::new(%s.offset, %s.offset + %s.len)' %
+                    (hname, sq(text_), sq(rexpr_)[:60] if rexpr_ else sq(rng_), locp, locp, locp))
+        for c_ in calls_:
+            nA += 1
+            a_text = sq(sx.strip_ref(c_['args'][hps.index(textp)])) if textp in hps else None
+            a_path = sq(c_['args'][hps.index(pathp['p'])]) if sx.is_path(pathp) and pathp['p'] in hps else None
+            arm_ = arm_of_line(pp, c_.get('l'))
+            if a_text != text_param:
+                r1.fail('%s:%s:text-source' % (hkey, arm_.key if arm_ else '-'), pp.where(c_.get('l')), '%s is given `%s` as the text to copy from, not the text being preprocessed (`%s`)' % (hname, a_text, text_param))
+            if a_path not in ('%s.as_ref()' % path_param, path_param, '&' + path_param):
+                r1.fail('%s:%s:origin-path' % (hkey, arm_.key if arm_ else '-'), pp.where(c_.get('l')), '%s is given `%s` as the origin path, not the file being read' % (hname, a_path))
+    r1.floor('source_copy_emission_sites', nA, 12)
 
     # ---- X3 writers: fields of the output struct are assigned only inside its own impl
     out_ty = 'PreprocessedText'
@@ -614,9 +672,51 @@ def x5_x7(ctx):
         bk = pp.loop_stmts[:pp.guard_idx]
         sets = [sq(n) for st in bk for n in sx.walk(st) if n.get('k') == 'assign']
         r7.inst('bookkeeping', {'assignments_before_guard': sets})
-        if sorted(sets) != sorted(['%s=true' % pp.skip_var, '%s=false' % pp.skip_var]):
+        sv = pp.skip_var
+        verdict_bk = None
+        # form A: match on the event; the Enter arm sets, the Leave arm clears (each under `contains`)
+        arm_sets = {}
+        for st in bk:
+            for m_ in sx.walk(st):
+                if m_.get('k') == 'match':
+                    for a_ in m_['arms']:
+                        pt = sq(a_['pat'])
+                        ev_ = 'Enter' if 'NodeEvent::Enter(' in pt else ('Leave' if 'NodeEvent::Leave(' in pt else None)
+                        if ev_:
+                            arm_sets.setdefault(ev_, []).extend(sq(n) for n in sx.walk(a_['body']) if n.get('k') == 'assign' and sx.is_path(n['l_'], sv))
+        if arm_sets.get('Enter') or arm_sets.get('Leave'):
+            if arm_sets.get('Enter') == ['%s=true' % sv] and arm_sets.get('Leave') == ['%s=false' % sv]:
+                verdict_bk = 'ok'
+            elif arm_sets.get('Enter') == ['%s=false' % sv] or arm_sets.get('Leave') == ['%s=true' % sv]:
+                verdict_bk = ('wrong', 'the flag is cleared on Enter / set on Leave of a skip-listed node (%s)' % arm_sets)
+            elif not arm_sets.get('Leave'):
+                verdict_bk = ('wrong', 'the flag is never cleared when a skip-listed node is left: everything after the first discarded branch is skipped')
+            elif not arm_sets.get('Enter'):
+                verdict_bk = ('wrong', 'the flag is never set when a skip-listed node is entered: discarded branches are processed')
+        else:
+            # form B: (entering, node) = match event { Enter(x) => (true, x), Leave(x) => (false, x) }; if contains(node) { skip = entering }
+            pol = {}
+            flagv = None
+            for st in bk:
+                if st['k'] == 'let' and 'init' in st and st['init'].get('k') == 'match' and st['pat'].get('k') == 'tuple':
+                    ids_ = sx.pat_idents(st['pat'])
+                    for a_ in st['init']['arms']:
+                        pt = sq(a_['pat'])
+                        ev_ = 'Enter' if 'NodeEvent::Enter(' in pt else ('Leave' if 'NodeEvent::Leave(' in pt else None)
+                        b_ = a_['body']
+                        if ev_ and b_.get('k') == 'tuple' and b_['e'] and b_['e'][0].get('k') == 'lit' and b_['e'][0].get('t') == 'bool':
+                            pol[ev_] = bool(b_['e'][0]['v'])
+                            flagv = ids_[0] if ids_ else None
+            if pol and sets == ['%s=%s' % (sv, flagv)]:
+                if pol == {'Enter': True, 'Leave': False}:
+                    verdict_bk = 'ok'
+                elif pol == {'Enter': False, 'Leave': True}:
+                    verdict_bk = ('wrong', 'the flag is cleared on Enter / set on Leave of a skip-listed node')
+        if verdict_bk is None:
+            r7.undecided('%s:skip-bookkeeping' % CRATE, pp.where(pp.loop_stmts[0].get('l')), 'how `%s` is maintained on Enter / Leave of a skip-listed node is not recognised (%s)' % (sv, sets))
+        elif verdict_bk != 'ok':
             r7.fail('%s:skip-bookkeeping' % CRATE, pp.where(pp.loop_stmts[0].get('l')),
-                    'before the guard `%s` must be set on Enter and cleared on Leave of a skip-listed node; found %s' % (pp.skip_var, sets))
+                    'before the guard `%s` must be set on Enter and cleared on Leave of a skip-listed node: %s' % (sv, verdict_bk[1]))
     # the skip list only grows: entries of an enclosing conditional must survive nested directives
     sl_var = None
     for st in pp.loop_fn['body']['stmts']:
